@@ -122,11 +122,17 @@ impl VV {
 
 #[derive(Clone, Copy, Debug, PartialEq, Eq)]
 pub enum Model {
-    /// Verdict model: SeqCst access = access between two view-only full barriers; releases are
-    /// A-cumulative.
+    /// SeqCst access = access between two view-only full barriers; releases are A-cumulative.
     M1,
-    /// Strict diagnostic model: SeqCst access = leading barrier only, no cumulativity.
+    /// Verdict model: SeqCst access = leading SC fence + acquire/release access (the strongest
+    /// reading every hardware mapping of SeqCst guarantees), no cumulativity.
     M2,
+    /// Abstract-machine diagnostic model: SeqCst accesses are *not* fences. An SC read of x reads
+    /// no older than the last SC write to x and than what SC fences published for x; an SC write
+    /// to x is seen by every later SC fence (RC11's psc with S and mo taken as execution order).
+    M3,
+    /// M3, but a failing compare-exchange reads the newest value (what Miri implements).
+    M3L,
     /// Sequential consistency (every load reads the newest message). Used by engine self tests.
     Sc,
 }
@@ -292,6 +298,8 @@ struct Msg {
 struct Loc {
     msgs: Vec<Msg>,
     addr: usize,
+    /// Index of the newest message written by a SeqCst access (models M3/M3L).
+    sc_w: u32,
 }
 
 #[derive(Default)]
@@ -674,6 +682,7 @@ impl St {
         self.locs.push(Loc {
             msgs: vec![Msg { val: real, rel: VV::default(), writer: me as u8 }],
             addr: cell as *const _ as usize,
+            sc_w: 0,
         });
         meta.store(((self.epoch as u64) << 32) | (id as u64 + 1), Ordering::Relaxed);
         id
@@ -718,11 +727,15 @@ pub enum Op {
 }
 
 impl St {
-    fn sc_pre(&mut self, me: usize, ord: Ordering) {
+    fn sc_pre(&mut self, me: usize, ord: Ordering, loc: usize) {
         if ord != Ordering::SeqCst {
             return;
         }
         match self.cfg.model {
+            Model::M3 | Model::M3L => {
+                let lo = self.scv.get(loc).max(self.locs[loc].sc_w);
+                self.threads[me].view.raise(loc, lo);
+            }
             Model::M1 | Model::Sc => {
                 let scv = std::mem::take(&mut self.scv);
                 self.threads[me].view.join(&scv);
@@ -739,9 +752,14 @@ impl St {
         }
     }
 
-    fn sc_post(&mut self, me: usize, ord: Ordering) {
+    fn sc_post(&mut self, me: usize, ord: Ordering, loc: usize, wrote: bool) {
         if ord != Ordering::SeqCst {
             return;
+        }
+        if wrote && matches!(self.cfg.model, Model::M3 | Model::M3L) {
+            let idx = (self.locs[loc].msgs.len() - 1) as u32;
+            self.locs[loc].sc_w = idx;
+            self.scv.raise(loc, idx);
         }
         if matches!(self.cfg.model, Model::M1 | Model::Sc) {
             let v = std::mem::take(&mut self.threads[me].view);
@@ -754,7 +772,7 @@ impl St {
     fn release_vv(&self, me: usize) -> VV {
         let th = &self.threads[me];
         let mut vv = VV { vc: th.vc, view: th.view.clone() };
-        if self.cfg.model != Model::M2 {
+        if matches!(self.cfg.model, Model::M1 | Model::Sc) {
             vv.join(&th.obs);
         }
         vv
@@ -829,10 +847,10 @@ impl St {
         // returns (value read / previous value, success, new value to put into the real cell)
         match op {
             Op::Load => {
-                self.sc_pre(me, ord);
+                self.sc_pre(me, ord, loc);
                 let idx = self.pick_read(me, loc, None, "read");
                 let v = self.read_msg(me, loc, idx, ord);
-                self.sc_post(me, ord);
+                self.sc_post(me, ord, loc, false);
                 if self.cfg.trace {
                     let hi = self.locs[loc].msgs.len() - 1;
                     let s = format!(
@@ -848,9 +866,9 @@ impl St {
                 (v, true, None)
             }
             Op::Store(v) => {
-                self.sc_pre(me, ord);
+                self.sc_pre(me, ord, loc);
                 self.write_msg(me, loc, v, ord, None);
-                self.sc_post(me, ord);
+                self.sc_post(me, ord, loc, true);
                 if self.cfg.trace {
                     let s = format!("t{} store.{} {} <- {:#x}", me, ord_name(ord), self.loc_name(loc), v);
                     self.trace.push(s);
@@ -858,7 +876,7 @@ impl St {
                 (0, true, Some(v))
             }
             Op::Swap(_) | Op::Add(_) | Op::Sub(_) => {
-                self.sc_pre(me, ord);
+                self.sc_pre(me, ord, loc);
                 let hi = self.locs[loc].msgs.len() - 1;
                 let old = self.read_msg(me, loc, hi, ord);
                 let new = match op {
@@ -868,7 +886,7 @@ impl St {
                     _ => unreachable!(),
                 };
                 self.write_msg(me, loc, new, ord, Some(hi));
-                self.sc_post(me, ord);
+                self.sc_post(me, ord, loc, true);
                 if self.cfg.trace {
                     let s = format!(
                         "t{} rmw.{} {} {:#x} -> {:#x}",
@@ -887,7 +905,10 @@ impl St {
                 let latest = self.locs[loc].msgs[hi].val;
                 // Decide between success, spurious failure and a (possibly stale) failing read.
                 // Alternatives are laid out as: 0 = default, then stale failing reads, then spurious.
-                self.sc_pre(me, ord);
+                let m3 = matches!(self.cfg.model, Model::M3 | Model::M3L);
+                // In M3 the access is no fence: a failure is just a load with the failure ordering.
+                self.sc_pre(me, if m3 { fail } else { ord }, loc);
+                let fail_latest = self.cfg.model == Model::M3L;
                 let mut outcome_idx: Option<usize> = None; // Some(i): fail reading message i
                 let mut spurious = false;
                 if latest == expected {
@@ -895,7 +916,7 @@ impl St {
                     // (stale), or fail spuriously (weak only).
                     let lo = self.threads[me].view.get(loc) as usize;
                     let mut cands: Vec<usize> = Vec::new();
-                    if !self.drain && self.cfg.model != Model::Sc && self.s_left > 0 && self.threads[me].quiet == 0 {
+                    if !self.drain && self.cfg.model != Model::Sc && !fail_latest && self.s_left > 0 && self.threads[me].quiet == 0 {
                         for i in (lo..hi).rev() {
                             if self.locs[loc].msgs[i].val != expected {
                                 cands.push(i);
@@ -915,14 +936,14 @@ impl St {
                         spurious = true;
                     }
                 } else {
-                    let idx = self.pick_read(me, loc, Some(expected), "casfail");
+                    let idx = if fail_latest { hi } else { self.pick_read(me, loc, Some(expected), "casfail") };
                     outcome_idx = Some(idx);
                 }
                 if spurious {
                     // Reads the newest message (equal to expected) with the failure ordering.
-                    self.sc_pre(me, fail);
+                    self.sc_pre(me, fail, loc);
                     let v = self.read_msg(me, loc, hi, fail);
-                    self.sc_post(me, fail);
+                    self.sc_post(me, fail, loc, false);
                     if self.cfg.trace {
                         let s = format!(
                             "t{} cas_weak {} SPURIOUS failure (value {:#x})",
@@ -938,7 +959,7 @@ impl St {
                     None => {
                         let old = self.read_msg(me, loc, hi, ord);
                         self.write_msg(me, loc, new, ord, Some(hi));
-                        self.sc_post(me, ord);
+                        self.sc_post(me, ord, loc, true);
                         if self.cfg.trace {
                             let s = format!(
                                 "t{} cas.{} {} {:#x} -> {:#x} ok",
@@ -953,9 +974,9 @@ impl St {
                         (old, true, Some(new))
                     }
                     Some(idx) => {
-                        self.sc_pre(me, fail);
+                        self.sc_pre(me, fail, loc);
                         let v = self.read_msg(me, loc, idx, fail);
-                        self.sc_post(me, fail);
+                        self.sc_post(me, fail, loc, false);
                         if self.cfg.trace {
                             let s = format!(
                                 "t{} cas.{}/{} {} expected {:#x} FAILED, read {:#x}{}",
@@ -1728,6 +1749,10 @@ pub struct Stats {
     pub max_steps: u64,
     pub max_choice_points: usize,
     pub complete: bool,
+    /// When the exploration was stopped by its callback: the prefixes of the subtrees (in
+    /// depth-first order) that were not explored yet. Together with what was explored they
+    /// cover the whole bounded space below the exploration's prefix.
+    pub remaining: Vec<Vec<u16>>,
 }
 
 /// Runs one execution with the given choice prefix; entries beyond it are discovered.
@@ -1876,11 +1901,18 @@ pub fn explore(
         stats.max_steps = stats.max_steps.max(res.steps);
         stats.max_choice_points = stats.max_choice_points.max(st2.len());
         let n = after(&mut res);
-        if n == Next::Stop {
-            return stats;
-        }
         if let Some(d) = limit_depth {
             st2.truncate(d.max(floor));
+        }
+        if n == Next::Stop {
+            for d in (floor..st2.len()).rev() {
+                for c in st2[d].c + 1..st2[d].n {
+                    let mut p: Vec<u16> = st2[..d].iter().map(|x| x.c).collect();
+                    p.push(c);
+                    stats.remaining.push(p);
+                }
+            }
+            return stats;
         }
         // Backtrack.
         loop {
